@@ -66,6 +66,16 @@ def is_sat(name, args, width):
     return False
 
 
+# iterator / slice adaptors: the value flows from the first argument, the others are counts
+ADAPTORS_FIRST = {"take", "skip", "step_by", "enumerate", "chunks_exact", "chunks_exact_mut",
+                  "chunks", "chunks_mut", "iter", "iter_mut", "into_iter", "next", "rev", "by_ref",
+                  "into_remainder", "remainder", "from_raw_parts", "from_raw_parts_mut",
+                  "components", "components_mut", "as_mut_ptr", "as_ptr", "add", "offset",
+                  "get_unchecked_mut", "split_at_mut", "split_at", "as_mut_slice", "as_slice",
+                  "deref", "deref_mut", "unwrap", "unwrap_unchecked", "first_mut", "copied",
+                  "cloned", "nth", "last", "array_chunks", "as_chunks", "as_chunks_mut"}
+
+
 class Tracer:
     def __init__(self, prog, width, inline_depth=3):
         self.prog = prog
@@ -97,6 +107,16 @@ class Tracer:
                     outs.append(("inline:" + name, subst(r, mapping), tgt))
                 if outs:
                     return [(l, c, t, depth + 1) for (l, c, t) in outs]
+            if name in ADAPTORS_FIRST and args:
+                return [(name, args[0], ctx, depth)]
+            if name == "zip":
+                return [(name, a, ctx, depth) for a in args[:2]]
+            if name == "map" and len(args) == 2 and args[1][0] == "agg" and args[1][1] == "closure":
+                from .validators import closure_return
+                r = closure_return(self.prog, args[1][2], [args[0]], list(args[1][4]))
+                cl = self.prog.fns.get(args[1][2])
+                if r is not None and cl is not None:
+                    return [("map-closure", r, cl, depth + 1)]
             return [(name, a, ctx, depth) for a in args]
         if k == "local":
             s = self.sym(ctx)
